@@ -40,14 +40,13 @@ var Transient = map[string]bool{
 	"Data.OpsMapMinIndex":    true,
 	"Data.OpsMapMaxIndex":    true,
 	"Data.OpsToMarshalIndex": true,
-	// position of the last log entry: raft metadata, set by Apply on every entry
-	"Data.Term":  true,
-	"Data.Index": true,
 	// set from Index on unmarshal / on every successful apply; read only by the leader's
 	// UpdateNodeTmpIndex scheduling, never by a command
 	"Data.UpdateNodeTmpIndexCommandStart": true,
 	// copied from the node's configuration at the start of CreateDataNode / CreateSqlNode
 	"Data.ExpandShardsEnable": true,
+	// cache of HasAdminUser(), recomputed by Unmarshal
+	"Data.AdminUserExists": true,
 	// external handle (only its presence is persisted)
 	"Data.SQLite": true,
 	// caches recomputed by unmarshal from persistent fields
@@ -55,6 +54,8 @@ var Transient = map[string]bool{
 	"MeasurementInfo.tagKeysTotal":   true,
 	"MeasurementInfo.SchemaLock":     true,
 	"MeasurementVer.NameWithVersion": true,
+	// denormalised copy of DbPtInfo.Db (DbPtInfo.Marshal writes Db in its place)
+	"DatabaseBriefInfo.Name": true,
 }
 
 // TransientList returns the sorted list of transient fields.
@@ -94,6 +95,13 @@ func dump(v reflect.Value, owner, field string) *Node {
 	case reflect.String:
 		return &Node{Kind: 'S', Str: v.String()}
 	case reflect.Ptr, reflect.Interface:
+		if v.Kind() == reflect.Ptr && (v.Type().Elem().Kind() == reflect.Map || v.Type().Elem().Kind() == reflect.Slice) {
+			// *map / *slice: nil and empty are the same thing
+			if v.IsNil() {
+				return &Node{Kind: 'L'}
+			}
+			return dump(v.Elem(), owner, field)
+		}
 		if v.IsNil() {
 			return &Node{Kind: 'L'}
 		}
